@@ -43,6 +43,8 @@ func (vc *VC) eval(e Expr, env *Env) SVal {
 			unsup("bad integer literal %s", x.V)
 		}
 		return mkInt(lit(n))
+	case *EStr:
+		return vc.constStr(types.Typ[types.String], x.V)
 	case *EIdent:
 		switch x.Name {
 		case "true", "false":
@@ -189,6 +191,10 @@ func (vc *VC) specEqual(a, b SVal) string {
 		// same view: same object, offset, length
 		if b.K != KSlice && b.K != KString {
 			unsup("comparison of slice with non-slice")
+		}
+		// comparison with a string literal is by content
+		if a.K == KString && b.K == KString && (strings.HasPrefix(a.obj(), "$S") || strings.HasPrefix(b.obj(), "$S")) {
+			return vc.stringEq(a, b)
 		}
 		return and(eq(a.obj(), b.obj()), eq(a.off(), b.off()), eq(a.ln(), b.ln()))
 	case KPtr:
